@@ -239,6 +239,7 @@ class Machine:
             else:
                 raise MirError('projection ' + repr(pr))
             i += 1
+        s.last_slen = slen
         return o, off, ty
 
     def read_place(s, p, loc, proj):
@@ -267,6 +268,12 @@ class Machine:
             return [int(m.group(1))]
         if c in ('true', 'false'):
             return [c == 'true']
+        m = re.match(r'^(?:std::|core::)?(\w+)::(MIN|MAX)$', c)
+        if m and m.group(1) in INT_BITS:
+            b = INT_BITS[m.group(1)]
+            if m.group(1)[0] == 'u':
+                return [0 if m.group(2) == 'MIN' else (1 << b) - 1]
+            return [-(1 << (b - 1)) if m.group(2) == 'MIN' else (1 << (b - 1)) - 1]
         if c.startswith('"'):
             body = c[1:c.rindex('"')]
             return [Str(body), len(body)]
@@ -502,9 +509,8 @@ class Machine:
         if k == 'ref':
             o, off, ty = s.resolve(p, rv[1], rv[2])
             if is_unsized(ty):
-                # re-borrow of a slice place: carry its length
-                vals = s.read_ptr_with_len(p, rv[1], rv[2])
-                return vals
+                # borrow of an unsized place (slice, or struct with a slice tail): carry the length metadata
+                return [Ptr(o, off), s.last_slen]
             if o not in p.mem:
                 s.ensure(p, o, s.lty(p, rv[1]))
             return [Ptr(o, off)]
@@ -530,8 +536,8 @@ class Machine:
                 sty = s.operand_ty(p, opnd)
                 if sty is not None and is_ptr(sty):
                     pt = pointee(sty)
-                    if pt.startswith('[') and not is_unsized(pt) and is_unsized(pointee(to)):
-                        return v + [array_parts(pt)[1]]
+                    if not is_unsized(pt) and is_unsized(pointee(to)):
+                        return v + [mir.unsized_tail_len(pt, pointee(to))]
                 if len(v) == nleaves(to):
                     return v
                 raise MirError('pointer coercion %s -> %s' % (sty, to))
@@ -1037,17 +1043,15 @@ class Machine:
             expected = t[2]
             if is_sym(v):
                 good = v if expected else bnot(v)
-                q = p.clone()
-                q.pc.append(bnot(good))
+                # failing side: recorded as a proof obligation (decided later, in parallel); no fork query needed
+                q = Path()
+                q.pc = p.pc + [bnot(good)]
+                q.may_panic = p.may_panic
+                q.pid = p.pid
+                q.events = p.events
                 s.stats['forks'] += 1
-                if s.feasible(q):
-                    q.pid = s.npaths
-                    s.npaths += 1
-                    s.end_panic(q, 'assert:' + t[4])
+                s.end_panic(q, 'assert:' + t[4])
                 p.pc.append(good)
-                if not s.feasible(p):
-                    s.stats['pruned'] += 1
-                    return None
                 return t[3]
             if bool(v) != expected:
                 raise Panic('assert:' + t[4])
